@@ -100,6 +100,17 @@ def framecase_to_coq(c):
         c["id"], coq_string(f["dec"]), body, obs_to_coq(c["obs"]), rows)
 
 
+MCONTENT = {"profile": "McProfile", "nested": "McNested", "empty": "McEmpty", "garbage": "McGarbage", "notgzip": "McNotGzip"}
+
+
+def mfcase_to_coq(c):
+    m = c["m"]
+    parts = ["{| mp_name := %s; mp_file := %s; mp_content := %s; mp_inflated := %d; mp_inflated2 := %d |}" % (
+        coq_string(p["name"]), b(p["file"]), MCONTENT[p["content"]], p.get("inflated", 0), p.get("inflated2", 0)) for p in m.get("parts") or []]
+    return "{| mc_id := %d; mc_form := {| mf_boundary_ok := %s; mf_closed := %s; mf_parts := %s |}; mc_limit := %d; mc_obs := %s |}" % (
+        c["id"], b(m["boundary_ok"]), b(m["closed"]), coq_list(parts), int(c["obs"].get("limit", 0)), obs_to_coq(c["obs"]))
+
+
 def case_to_coq(c):
     d = c.get("d")
     o = c["obs"]
@@ -123,18 +134,20 @@ def eval_cases(ck, name, cases):
     gen = [c for c in cases if c["stream"] == "generic"]
     lim = [c for c in cases if c["stream"] == "limit"]
     frm = [c for c in cases if c["stream"] == "frame"]
-    rest = [c for c in cases if c["stream"] not in ("generic", "limit", "frame")]
+    mfm = [c for c in cases if c["stream"] == "mform"]
+    rest = [c for c in cases if c["stream"] not in ("generic", "limit", "frame", "mform")]
     # the route table is the one regenerated from controller/*.go on this run (gen_routes)
     txt = ("From Coq Require Import List String Ascii ZArith NArith Bool.\n"
-           "From Qryn Require Import model.IngestRobust model.IngestPipe model.IngestFraming gen.GenGoroutinesWriter.\n"
+           "From Qryn Require Import model.IngestRobust model.IngestPipe model.IngestFraming model.IngestShared gen.GenGoroutinesWriter.\n"
            "Import ListNotations.\nOpen Scope string_scope.\nOpen Scope Z_scope.\n"
            "Definition cases : list case := [\n  " + ";\n  ".join(case_to_coq(c) for c in rest) + "].\n"
+           "Definition mfcases : list mfcase := [\n  " + ";\n  ".join(mfcase_to_coq(c) for c in mfm) + "].\n"
            "Definition gcases : list gcase := [\n  " + ";\n  ".join(gcase_to_coq(c) for c in gen) + "].\n"
            "Definition lcases : list limcase := [\n  " + ";\n  ".join(limcase_to_coq(c) for c in lim) + "].\n"
            "Definition fcases : list framecase := [\n  " + ";\n  ".join(framecase_to_coq(c) for c in frm) + "].\n"
-           "Definition M := Eval vm_compute in (mismatches cases ++ g_mismatches gen_routes gcases ++ lim_mismatches lcases ++ frame_mismatches gen_frame_progs fcases)%list.\nPrint M.\n"
+           "Definition M := Eval vm_compute in (mismatches cases ++ g_mismatches gen_routes gcases ++ lim_mismatches lcases ++ frame_mismatches gen_frame_progs fcases ++ mf_mismatches mfcases)%list.\nPrint M.\n"
            "Definition V := Eval vm_compute in (spec_violations cases ++ g_spec_violations gen_routes gcases ++ lim_spec_violations lcases "
-           "++ frame_spec_violations 16777216 fcases)%list.\nPrint V.\n")
+           "++ frame_spec_violations 16777216 fcases ++ mf_spec_violations mfcases)%list.\nPrint V.\n")
     rc, out = ck.coq_eval(name, txt)
     if rc != 0:
         return None, None, out
@@ -207,6 +220,7 @@ def run_translator(ck):
            "Definition DFP := Eval vm_compute in (failing_probes gen_prom_decode_prog, failing_probes gen_lokiproto_decode_prog).\nPrint DFP.\n"
            "Definition LSB := Eval vm_compute in (forallb site_uniform gen_lockstep_blocks, Z.of_nat (List.length gen_lockstep_blocks), "
            "map (fun s => let '(f, fn, _, _, _) := s in fn) (filter (fun s => negb (site_uniform s)) gen_lockstep_blocks)).\nPrint LSB.\n"
+           "Definition MFS := Eval vm_compute in strs_eqb' gen_mform_source mform_source_model.\nPrint MFS.\n"
            "Definition PPG := Eval vm_compute in strs_eqb' gen_pprof_parse_guard pprof_parse_guard_model.\nPrint PPG.\n"
            "Definition PRF := Eval vm_compute in (profile_ok gen_on_profile_prog gen_profile_fields gen_profile_cols gen_profile_cols_unknown, "
            "profile_request_cols gen_on_profile_prog gen_profile_cols 1).\nPrint PRF.\n")
@@ -296,6 +310,8 @@ def run_translator(ck):
     ck.obligation("onProfile fills every slice field of ProfileData by exactly one statement (eight per row, five per request), sends and resets under the size test; "
                   "every column of the profile insert service reads one field the way it is filled (on_profile_fills_every_column_once)", val("PRF").startswith("(true"),
                   "(profile_ok, what a one-row request appends to the 13 columns) = " + val("PRF"))
+    ck.obligation("the multipart route of /ingest reads form.File[\"profile\"], bounds the file's gzip layer with NewDecompressor(100000) and finds the boundary with the "
+                  "modelled pattern (multipart_form_in_source)", val("MFS") == "true", "gen_mform_source differs from mform_source_model (see coq/gen/GenGoroutinesWriter.v)")
     ck.obligation("golangPprof.go Parse inflates a gzip-compressed profile itself through helpers.LimitDecoded + io.ReadAll and refuses a second gzip layer before "
                   "the profile parser sees it (profile_gzip_layer_in_source)", val("PPG") == "true", "gen_pprof_parse_guard differs from pprof_parse_guard_model (see coq/gen/GenGoroutinesWriter.v)")
     ck.obligation("every statement list that changes the length of a slice handed to onEntries at the five non-literal call sites is uniform (no control flow inside, every "
@@ -348,7 +364,7 @@ def parse_probes(txt):
 
 
 def nontrivial(c):
-    if c["stream"] in ("limit", "frame"):
+    if c["stream"] in ("limit", "frame", "mform"):
         return True
     if c["stream"] in ("struct", "generic"):
         return "/wellformed" not in c["class"] or "+ce" in c["class"]
@@ -367,7 +383,7 @@ def load(p):
 
 def strip_case(c):
     """the replayable part of a case (what `ingestfuzz --cases` needs)"""
-    return {k: c[k] for k in ("id", "stream", "class", "req", "d", "l", "f", "f_model") if k in c}   # req carries fill / limit
+    return {k: c[k] for k in ("id", "stream", "class", "req", "d", "l", "f", "f_model", "m") if k in c}   # req carries fill / limit
 
 
 def write_cases(path, cases):
@@ -437,8 +453,9 @@ def run_harness(ck):
         ng = ck.n(400, 10000)
         nl = ck.n(60, 1500)
         nf = ck.n(150, 4000)
+        nm = ck.n(120, 3000)
         outp = os.path.join(ck.work, "gen_out.jsonl")
-        rc, out = ck.go_run("ingestfuzz", ["--seed", ck.seed, "--n", n, "--nbytes", nb, "--ngeneric", ng, "--nlimit", nl, "--nframe", nf, "--max-bad", 12, "--phrases-file", PHRASES, "--out", outp], timeout=6000)
+        rc, out = ck.go_run("ingestfuzz", ["--seed", ck.seed, "--n", n, "--nbytes", nb, "--ngeneric", ng, "--nlimit", nl, "--nframe", nf, "--nmform", nm, "--max-bad", 12, "--phrases-file", PHRASES, "--out", outp], timeout=6000)
         if rc != 0:
             ck.obligation("harness ingestfuzz ran", False, out[-1500:])
             return
@@ -469,7 +486,7 @@ def run_harness(ck):
             and max(int(c["obs"].get("decoded_len", 0)), 0 if any(k == "Content-Encoding" and v in ("gzip", "snappy") for k, v in c["req"].get("headers", []))
                     else int(c["obs"].get("body_len", 0))) > int(c["obs"]["limit"])]
     ck.obligation("generator: structured cases (plain or under a Content-Encoding) stay within the payload limit the harness router runs with", not over, "cases: %s" % over[:10])
-    nstruct = sum(1 for c in cases if c["stream"] in ("struct", "generic", "limit", "frame"))
+    nstruct = sum(1 for c in cases if c["stream"] in ("struct", "generic", "limit", "frame", "mform"))
     nframe = sum(1 for c in cases if c["stream"] == "frame")
     ngeneric = sum(1 for c in cases if c["stream"] == "generic")
     nlimit = sum(1 for c in cases if c["stream"] == "limit")
@@ -504,7 +521,7 @@ def run_harness(ck):
     hist = {}
     outcomes = {}
     for c in cases:
-        key = c["class"].split("+")[0] if c["stream"] in ("struct", "generic", "limit", "frame") else "bytes:" + c["class"].split(" ")[0]
+        key = c["class"].split("+")[0] if c["stream"] in ("struct", "generic", "limit", "frame", "mform") else "bytes:" + c["class"].split(" ")[0]
         key = "/".join(key.split("/")[:3])
         hist[key] = hist.get(key, 0) + 1
         ok = c["stream"] + ":" + c["obs"]["outcome"]
@@ -527,6 +544,7 @@ def run_harness(ck):
                                       "structured_cases": nstruct, "of_which_predicted_from_the_route_table": ngeneric,
                                       "of_which_payloads_of_an_exact_size_around_the_decoded-size_limit_(plain/gzip/snappy)": nlimit,
                                       "of_which_NDJSON_framing_bodies_(CF,_Elasticsearch_bulk,_Zipkin_NDJSON)": nframe,
+                                      "of_which_multipart_forms_of_/ingest_(boundary_line,_closing_delimiter,_parts,_gzip_layers_of_the_profile_file)": sum(1 for c in cases if c["stream"] == "mform"),
                                       "NDJSON_framing": {
                                           "with_a_line_of_64KiB_or_more": sum(1 for c in cases if c["stream"] == "frame" and ("64KiB" in c["class"] or "16MiB" in c["class"])),
                                           "with_a_line_around_the_16MiB_token_limit": sum(1 for c in cases if c["stream"] == "frame" and "16MiB" in c["class"]),
@@ -536,7 +554,7 @@ def run_harness(ck):
                                           "lines_stored_by_2xx_answers": sum(sum((c["obs"].get("rows") or {}).values()) for c in cases if c["stream"] == "frame" and c["obs"]["outcome"] == "2xx")},
                                       "decoded_size_limit_of_the_harness_router_bytes": max([int(c["obs"].get("limit", 0)) for c in cases] or [0]), "byte_level_fuzz_cases_(test_not_proof)": nbytes}
     smp = []
-    for want in ("ingest", "otlp/malformed", "zipkin", "generic", "limit", "frame", "bytes"):
+    for want in ("ingest", "otlp/malformed", "zipkin", "generic", "limit", "frame", "mform/parts", "bytes"):
         for c in cases:
             if (c["class"].startswith(want) or (want == "bytes" and c["stream"] == "bytes")) and nontrivial(c):
                 r = dict(c["req"])
@@ -867,7 +885,7 @@ def run_pipe(ck):
 
 
 CKIND = {"prom": "CProm", "lokiproto": "CLokiProto", "lokijson": "CLokiJson", "ddmetrics": "CDdMetrics"}
-SHTABLE = {"samples_v3": 3, "time_series": 4, "profiles_input": 5}
+SHTABLE = {"samples_v3": 3, "time_series": 4, "profiles_input": 5, "tempo_traces": 6, "tempo_traces_attrs_gin": 7}
 SHARED_CORPUS = os.path.join(HERE, "corpus", "C05", "shared.jsonl")
 
 
@@ -895,6 +913,15 @@ def shpcase_to_coq(c):
     blocks = ["(%d, %s, %s)" % (SHTABLE.get(x["table"], 9), b(x["refused"]), coq_list(["%d%%N" % n for n in x["cols"]])) for x in (o.get("blocks") or [])]
     return "{| shp_id := %d; shp_a_bad := %s; shp_b_bad := %s; shp_obs := {| so_a := %s; so_b := %s; so_blocks := %s; so_a_lines := 0%%N |} |}" % (
         c["id"], b(bool(c["a"].get("bad"))), b(bool(c["b"].get("bad"))), status_outcome(o["a_status"]), status_outcome(o["b_status"]), coq_list(blocks))
+
+
+def shscase_to_coq(c):
+    o = c["obs"]
+    blocks = ["(%d, %s, %s)" % (SHTABLE.get(x["table"].replace("_dist", ""), 9), b(x["refused"]), coq_list(["%d%%N" % n for n in x["cols"]])) for x in (o.get("blocks") or [])]
+    return ("{| shs_id := %d; shs_a_spans := %d%%N; shs_b_spans := %d%%N; shs_a_bad := %s; shs_b_bad := %s; "
+            "shs_obs := {| so_a := %s; so_b := %s; so_blocks := %s; so_a_lines := 0%%N |} |}" % (
+                c["id"], sum(k for k, _ in c["a"]["shape"]), sum(k for k, _ in c["b"]["shape"]), b(bool(c["a"].get("bad"))), b(bool(c["b"].get("bad"))),
+                status_outcome(o["a_status"]), status_outcome(o["b_status"]), coq_list(blocks)))
 
 
 def run_shared(ck):
@@ -959,11 +986,12 @@ def run_shared(ck):
         txt = ("From Coq Require Import List String Ascii ZArith NArith Bool.\n"
                "From Qryn Require Import model.IngestRobust model.IngestPipe model.IngestShared gen.GenGoroutinesWriter.\n"
                "Import ListNotations.\nOpen Scope Z_scope.\n"
-               "Definition shcases : list shcase := [\n  " + ";\n  ".join(shcase_to_coq(c) for c in part if c["a"]["kind"] != "pprof") + "].\n"
+               "Definition shcases : list shcase := [\n  " + ";\n  ".join(shcase_to_coq(c) for c in part if c["a"]["kind"] not in ("pprof", "zipkin")) + "].\n"
+               "Definition shscases : list shscase := [\n  " + ";\n  ".join(shscase_to_coq(c) for c in part if c["a"]["kind"] == "zipkin") + "].\n"
                "Definition shpcases : list shpcase := [\n  " + ";\n  ".join(shpcase_to_coq(c) for c in part if c["a"]["kind"] == "pprof") + "].\n"
                "Definition M := Eval vm_compute in (sh_mismatches gen_on_entries_cols gen_spl_fields gen_tsd_fields gen_prom_decode_prog gen_lokiproto_decode_prog shcases "
                "++ shp_mismatches gen_on_profile_prog gen_profile_cols shpcases)%list.\nPrint M.\n"
-               "Definition V := Eval vm_compute in (sh_spec_violations shcases ++ shp_spec_violations shpcases)%list.\nPrint V.\n")
+               "Definition V := Eval vm_compute in (sh_spec_violations shcases ++ shp_spec_violations shpcases ++ shs_spec_violations shscases)%list.\nPrint V.\n")
         rc, out = ck.coq_eval("C05_shared_%d" % (k // shard), txt)
         flat = " ".join(out.split())
         m = re.search(r"M = \[(.*?)\]\s*: list Z", flat)
